@@ -52,6 +52,12 @@ func parseOps(f []string) ([]op, error) {
 			o.kind = 'r'
 		} else if _, err := fmt.Sscanf(t, "d%d.%d", &o.sess, &o.node); err == nil {
 			o.kind = 'd'
+		} else if _, err := fmt.Sscanf(t, "U%d", &o.node); err == nil {
+			o.kind = 'U'
+		} else if _, err := fmt.Sscanf(t, "L%d", &o.node); err == nil {
+			o.kind = 'L'
+		} else if _, err := fmt.Sscanf(t, "X%d", &o.sess); err == nil {
+			o.kind = 'X'
 		} else {
 			return nil, fmt.Errorf("bad op %q", t)
 		}
